@@ -573,7 +573,7 @@ def ght_distribution(cases, results):
 # ====================================================================== C08 extended: storage kinds, forced, drains, COLT
 
 GHT2_SHAPES = {"k1v1": {"nk": 1, "arity": 2}, "k2v1": {"nk": 2, "arity": 3}, "k0v2": {"nk": 0, "arity": 2}}
-X_KEYS = {2: "GhtInner/empty-child-after-drain"}  # class 1 (forced flag in ==) was fixed by beb89003dcf
+X_KEYS = {}  # former classes: 1 forced flag in == (fixed beb89003dcf), 2 empty child counts as content (fixed c041ccb5709)
 
 
 def x_op_term(op):
